@@ -569,6 +569,8 @@ def twin(rng, v, p=0.45):
 
 
 ARG_PAIRS = [  # (first build, second build, same JSON value?)
+    # values whose Python hashes collide (hash(-1) == hash(-2), hash(0) == hash('')): a key is more than its hash
+    (-1, -2, False), (0, '', False), ([0], [''], False), ({'k': -1}, {'k': -2}, False),
     # keys that collide once stringified: the LAST one wins (json.dumps writes both, json.loads keeps the last)
     ({8: 'a', '8': 'b'}, {'8': 'b'}, True), ({8: 'a', '8': 'b'}, {'8': 'a'}, False), ({'k': {None: 1, 'null': 2}}, {'k': {'null': 2}}, True),
     ({True: 1, 'true': 2}, {'true': 1}, False), ({'1.5': 'x', 1.5: 'y'}, {'1.5': 'y'}, True),
